@@ -90,7 +90,7 @@ def to_events(trace_path, out_path):
             lexicals_of(st["sols"], lex)
             lexicals_of(q, lex)
             lex.discard("")
-            kind, num, rank, canon = G.tables(lex)
+            kind, num, rank, canon = G.tables(lex, G.resource_terms(st["quads"]))
             events.append({"ev": "exec", "run": eid, "quads": st["quads"], "graphs": st["graphs"], "kind": kind, "num": num, "rank": rank,
                            "canon": canon, "q": q, "sols": st["sols"], "res": st["res"]})
             meta[eid] = {"case": case, "cfg": st["cfg"], "text": case["texts"][st["text"]], "nsols": len(st["sols"]), "err": st["err"], "res": st["res"], "ti": st["text"]}
